@@ -174,6 +174,18 @@ def guarded(fn, seconds: float = 2.0):
     def _raise(*a):
         raise CaseTimeout(f"no result within {seconds}s of CPU time / {max(30.0, 15 * seconds)}s of wall time")
 
+    # ... and code that allocates without end meets a MemoryError (address space of this process: what it has now + 4 GiB)
+    import resource
+    soft, hard = resource.getrlimit(resource.RLIMIT_AS)
+    try:
+        now = int(open("/proc/self/statm").read().split()[0]) * os.sysconf("SC_PAGE_SIZE")
+        cap = now + 4 * 2**30
+        if hard != resource.RLIM_INFINITY:
+            cap = min(cap, hard)
+        if soft == resource.RLIM_INFINITY or cap < soft:
+            resource.setrlimit(resource.RLIMIT_AS, (cap, hard))
+    except (OSError, ValueError):
+        pass
     old = signal.signal(signal.SIGALRM, _raise)
     oldp = signal.signal(signal.SIGPROF, _raise)
     signal.setitimer(signal.ITIMER_REAL, max(30.0, 15 * seconds))
@@ -185,3 +197,7 @@ def guarded(fn, seconds: float = 2.0):
         signal.setitimer(signal.ITIMER_REAL, 0)
         signal.signal(signal.SIGPROF, oldp)
         signal.signal(signal.SIGALRM, old)
+        try:
+            resource.setrlimit(resource.RLIMIT_AS, (soft, hard))
+        except (OSError, ValueError):
+            pass
